@@ -28,9 +28,20 @@ spec/redis/ConnTable.tla: backend connection table + shared connect calls + clie
     The layout has a master and a replica component; under the read strategies REPLICA and BOTH a change of the replica
     assignment alone ("replica moves, master stays") makes the table stale (SkipUnchanged = TRUE - a refresh that leaves
     slots with an unchanged master alone - must violate BoundedRounds / TriggerKept); mandatory strata under REPLICA and BOTH.
+ 5. what a backend connection depends on indirectly (ConnTable.tla, constants Counters / MaxCfg): the hot-key collector's
+    counter of an ADDRESS is shared between the old and the new connection of that address and freed by client.Stop, the
+    collector's pass and Counter.Free take the collector's lock and the counter's lock (NoLockCycle; FreeHoldsCounterLock
+    = TRUE must violate it), a freed counter stays usable (NoCrash; FreeDestroys = TRUE must violate it), and a run-time
+    configuration update that omits the connect timeout gets the default (UpdateLosesDefaults = TRUE must violate NoCrash
+    at the next connect).  Code: histories contain ConfigUpdate (mandatory stratum: update, connection loss, request);
+    `c07-traffic`: ResetAll / Remove+Add / ConnLost again and again under continuing traffic of several sessions to the
+    same addresses with the collector's passes back to back - every request answered, every backend served again over a
+    new connection.  Every history / traffic item runs in its own worker process: a death of the process with frames of
+    the code under test on the panicking goroutine, reproduced when the item is run again, is a violation (`crash/...`).
 Owned: spec/redis/ConnTable.tla ConnTableGen.tla Refresh.tla RefreshGen.tla and their cfg files
        (MC_ConnTable_*, Gen_ConnTable, Strata_ConnTable, MC_Refresh*, Gen_Refresh, Strata_Refresh), harness/cases/c07, harness/cmd/c07.
 """
+import json
 import os
 from concurrent.futures import ThreadPoolExecutor
 
@@ -40,6 +51,7 @@ LEVEL = "model_checking"
 
 FAULTS = ("ConnLost", "BackendDown", "BackendUp", "ResetAll")
 PIPE_ACTIONS = ("Stall", "Unstall", "WriterTake", "HandOver", "HandQuit")
+CTR_ACTIONS = ("StopFreeA", "StopFreeB", "CollectStart", "CollectLatch", "CollectEnd", "ConfigUpdate")
 
 
 def pipeline_window(beh):
@@ -64,15 +76,32 @@ def pipeline_window(beh):
 
 
 def stratum_key(rec):
-    """(pipe: command / ASKING hand-over, how the request the writer held got its reply | rdial: reset while the reader of
-    the redirecting client was about to create the client) of a Strata_ConnTable path."""
+    """pipe: (command / ASKING hand-over, how the request the writer held got its reply) | rdial: reset while the reader of
+    the redirecting client was about to create the client | cfg: first connect after a configuration update, by what
+    made the new connection necessary - of a Strata_ConnTable path."""
     beh = rec["hist"]
     last = beh[-1]
-    ask = [e for e in beh if e["a"] == "Issue" and e["r"] == last["r"]][0].get("ask")
-    env = [e["a"] for e in beh[:-1] if e["a"] in ("ConnLost", "BackendDown", "ResetAll", "Unstall")]
+    iss = [j for j, e in enumerate(beh) if e["a"] == "Issue" and e["r"] == last["r"]][0]
+    if rec["kind"] == "cfg":
+        i = [j for j, e in enumerate(beh) if e["a"] == "ConfigUpdate"][0]
+        if iss < i:
+            return ("config-update", "during-request", last["out"])
+        env = [e["a"] for e in beh[i:iss] if e["a"] in ("ConnLost", "BackendDown", "ResetAll")]
+        return ("config-update", env[-1] if env else "first-connect", last["out"])
     if rec["kind"] == "rdial":
         return ("redirect-dial", "ResetAll", last["out"])
-    return ("ask" if ask else "cmd", env[-1] if env else "?", last["out"])
+    env = [e["a"] for e in beh[:-1] if e["a"] in ("ConnLost", "BackendDown", "ResetAll", "Unstall")]
+    return ("ask" if beh[iss].get("ask") else "cmd", env[-1] if env else "?", last["out"])
+
+
+def judge_crash(ctx, crash, sig_tail, what, art):
+    """A death of the worker process with frames of the code under test, reproduced when the item was run again."""
+    if crash.get("confirmed"):
+        ctx.violation("crash/%s/%s" % (crash["frame"], sig_tail),
+                      "the process hosting the proxy died (%s, in %s) while it ran %s; reproduced when the item was run again alone"
+                      % (crash["panic"], crash["frame"], what), art)
+    else:
+        ctx.notes.append("%s: the worker died once (%s in %s), not reproduced when run again" % (what, crash["panic"], crash["frame"]))
 
 
 def run(ctx):
@@ -88,8 +117,8 @@ def run(ctx):
     pool = ThreadPoolExecutor(max_workers=2)
 
     def big():
-        # quick: 4 requests, 2 faults (the stalled configuration below adds 3 requests, 2 faults, 1 stall); thorough: 3 faults
-        return ctx.mc("redis", "ConnTable", "MC_ConnTable_fixed_quick.cfg" if quick else "MC_ConnTable_fixed.cfg", workers=6, timeout=900)
+        # quick: 3 requests, 3 faults (beside the stalled configuration: 3 requests, 2 faults, 1 stall, and the counters one); thorough: 4 requests
+        return ctx.mc("redis", "ConnTable", "MC_ConnTable_fixed_quick.cfg" if quick else "MC_ConnTable_fixed.cfg", workers=4, timeout=900)
 
     def small():
         jobs = [
@@ -101,6 +130,12 @@ def run(ctx):
             ("ConnTable", "MC_ConnTable_pinned_ask.cfg", ["ErrorsOnlyWhileDown"]),
             # resetAllClients keeps clientsMu while it stops the old clients: it waits for a reader that waits for the lock
             ("ConnTable", "MC_ConnTable_pinned_resetlock.cfg", ["NoStuckReset"]),
+            # Counter.Free leaves the counter the successor connection shares unusable: the next keyed command kills the process
+            ("ConnTable", "MC_ConnTable_pinned_freedestroys.cfg", ["NoCrash"]),
+            # Counter.Free keeps the counter's lock while it takes the collector's lock, the collector's pass does the opposite
+            ("ConnTable", "MC_ConnTable_pinned_freelock.cfg", ["NoLockCycle"]),
+            # the defaults of a run-time configuration update do not reach the processor: nil timeout at the next connect
+            ("ConnTable", "MC_ConnTable_pinned_cfgdefaults.cfg", ["NoCrash"]),
             # a refresh that leaves slots with an unchanged master alone never installs a new replica list
             ("Refresh", "MC_Refresh_skip.cfg", ["BoundedRounds", "TriggerKept"]),
             # a successful refresh that empties the trigger channel forgets the refresh asked for meanwhile
@@ -111,6 +146,8 @@ def run(ctx):
             jobs += [("ConnTable", "MC_ConnTable_win_cmd.cfg", ["NoHandoverCmd"]),
                      ("ConnTable", "MC_ConnTable_win_ask.cfg", ["NoHandoverAsk"]),
                      ("ConnTable", "MC_ConnTable_win_rdial.cfg", ["NoResetDuringRedirectDial"]),
+                     ("ConnTable", "MC_ConnTable_win_shared.cfg", ["NoSharedCounter"]),
+                     ("ConnTable", "MC_ConnTable_win_freecollect.cfg", ["NoFreeDuringCollect"]),
                      ("Refresh", "MC_Refresh_window.cfg", ["NoWindow"]),
                      ("Refresh", "MC_Refresh_window_replica.cfg", ["NoReplicaStale"])]
         def stalled():
@@ -120,32 +157,49 @@ def run(ctx):
             rs = ctx.mc("redis", "ConnTable", "MC_ConnTable_stall.cfg" if quick else "MC_ConnTable_stall_thorough.cfg",
                         workers=4, timeout=1800, coverage=quick)
             if rs.coverage:
-                ctx.check_vacuity(rs, "ConnTable", ignore=("ResetSnapshot", "ResetDone"))
+                ctx.check_vacuity(rs, "ConnTable", ignore=("ResetSnapshot", "ResetDone") + CTR_ACTIONS)
+
+        def counters():
+            # the counter registry, its two locks, configuration updates (all their actions are taken here)
+            rc = ctx.mc("redis", "ConnTable", "MC_ConnTable_counters.cfg" if quick else "MC_ConnTable_counters_thorough.cfg",
+                        workers=4, timeout=1800, coverage=quick)
+            if rc.coverage:
+                ctx.check_vacuity(rc, "ConnTable", ignore=("ResetSnapshot", "ResetDone") + PIPE_ACTIONS)
 
         def refresh_loop():
             # the refresh loop: one-slot trigger channel, retry on failure, minimum interval; convergence within two
             # rounds; a trigger raised while an older reply is in flight is kept
-            ctx.mc("redis", "Refresh", "MC_Refresh.cfg", workers=1, timeout=300)
-            # ... and with reads routed by the replica lists (layout changes of the replica assignment alone)
-            ctx.mc("redis", "Refresh", "MC_Refresh_replica.cfg", workers=1, timeout=300)
+            if not quick:
+                ctx.mc("redis", "Refresh", "MC_Refresh.cfg", workers=1, timeout=900)
+            # ... and with reads routed by the replica lists (master changes and changes of the replica assignment alone;
+            # the quick tier runs this configuration only)
+            ctx.mc("redis", "Refresh", "MC_Refresh_replica.cfg", workers=1, timeout=900)
 
-        with ThreadPoolExecutor(max_workers=3) as ex:
-            futs = [ex.submit(stalled), ex.submit(refresh_loop)]
-            futs += [ex.submit(ctx.mc, "redis", m, c, workers=1, timeout=300, expect_violated=v, count=False) for (m, c, v) in jobs]
+        with ThreadPoolExecutor(max_workers=5) as ex:
+            futs = [ex.submit(stalled), ex.submit(counters), ex.submit(refresh_loop)]
+            futs += [ex.submit(ctx.mc, "redis", m, c, workers=1, timeout=900, expect_violated=v, count=False) for (m, c, v) in jobs]
             for f in futs:
                 f.result()
 
+    # behaviour emission (four TLC runs side by side) and the exhaustive runs
+    epool = ThreadPoolExecutor(max_workers=4)
+    num = 300 if ctx.thorough else 40
+    rnum = 80 if ctx.thorough else 8
+    fut_g = epool.submit(ctx.tlc, "redis", "ConnTableGen", "Gen_ConnTable.cfg", mode="sim", workers=1, sim_num=num, sim_depth=150,
+                         seed=ctx.seed, deadlock=False, timeout=900)
+    fut_st = epool.submit(ctx.tlc, "redis", "ConnTableGen", "Strata_ConnTable.cfg", workers=1, deadlock=False, timeout=900)
+    fut_g2 = epool.submit(ctx.tlc, "redis", "RefreshGen", "Gen_Refresh.cfg", mode="sim", workers=1, sim_num=rnum, sim_depth=60,
+                          seed=ctx.seed, deadlock=False, timeout=900)
+    fut_st2 = epool.submit(ctx.tlc, "redis", "RefreshGen", "Strata_Refresh.cfg", workers=1, deadlock=False, timeout=900)
     fut_big, fut_small = pool.submit(big), pool.submit(small)
 
     # ---------------------------------------------------------------- connection table: histories on the real code
-    num = 300 if ctx.thorough else 40
-    g = ctx.tlc("redis", "ConnTableGen", "Gen_ConnTable.cfg", mode="sim", workers=1, sim_num=num, sim_depth=150,
-                seed=ctx.seed, deadlock=False, timeout=300)
+    g = fut_g.result()
     behs = [p for (tag, p) in g.prints if tag == "BEH"]
     if len(behs) < num // 2:
         raise kit.Inconclusive("only %d behaviours emitted: %s" % (len(behs), g.error[:300]))
     # mandatory strata: shortest path per (hand-over kind, end of the stall) out of one exhaustive run
-    st = ctx.tlc("redis", "ConnTableGen", "Strata_ConnTable.cfg", workers=1, deadlock=False, timeout=300)
+    st = fut_st.result()
     if st.timeout or (st.error and not st.prints):
         raise kit.Inconclusive("strata emission failed: %s" % st.error[:500])
     best = {}
@@ -155,11 +209,11 @@ def run(ctx):
             if k not in best or len(p["hist"]) < len(best[k]):
                 best[k] = p["hist"]
     st.prints, st.stdout = [], ""
-    need = {(h, e, "err") for h in ("cmd", "ask") for e in ("ConnLost", "BackendDown", "ResetAll")} | {("cmd", "Unstall", "ok"), ("ask", "Unstall", "ok"), ("redirect-dial", "ResetAll", "ok")}
+    need = {(h, e, "err") for h in ("cmd", "ask") for e in ("ConnLost", "BackendDown", "ResetAll")} | {("cmd", "Unstall", "ok"), ("ask", "Unstall", "ok"), ("redirect-dial", "ResetAll", "ok"), ("config-update", "ConnLost", "ok")}
     if need - set(best):
         raise kit.Inconclusive("strata not reachable in ConnTableGen: %s" % sorted(need - set(best)))
     strata = {}
-    for k in sorted(need) + [k for k in sorted(best) if k not in need and k[0] == "redirect-dial"]:
+    for k in sorted(need) + [k for k in sorted(best) if k not in need and (k[0] == "redirect-dial" or (k[0] == "config-update" and k[2] == "ok"))]:
         strata[len(behs)] = "/".join(k[:2]) + ("/backend-down" if k[0] == "redirect-dial" and k[2] == "err" else "")
         behs.append(best[k])
     ctx.cov["conntable_strata"] = sorted(strata.values())
@@ -176,98 +230,41 @@ def run(ctx):
         elif pat and budget > 0:
             gate.append(idx + 1)
             budget -= 1
-    ctx.harness(["c07-replay", "-in", bfile, "-out", rfile, "-par", "4", "-gate", ",".join(map(str, gate)) or "0"], timeout=3000)
-    results = kit.read_ndjson(rfile)
-    okc = 0
-    missed = []
-    for idx, (res, beh) in enumerate(zip(results, behs)):
-        if res.get("err"):
-            ctx.notes.append("replay %d: %s" % (res["id"], res["err"]))
-            if idx in strata:
-                missed.append("%s: %s" % (strata[idx], res["err"]))
-            continue
-        okc += 1
-        faults = [s["a"] for s in beh if s["a"] in FAULTS]
-        win = pipeline_window(beh)
-        ctx.case(key=[(s["a"], s["r"], bool(s.get("ask"))) for s in beh], nontrivial=len(faults) > 0 or bool(win) or idx in strata or bool(res.get("heldAtReset")))
-        art = {"behaviour": beh, "result": res}
-        if idx in strata:
-            art["stratum"] = strata[idx]
-            if win and not res.get("heldAtFault"):
-                missed.append("%s: the writer was not seen holding a request when the fault hit" % strata[idx])
-            if strata[idx].startswith("redirect-dial") and not res.get("heldAtReset"):
-                missed.append("%s: no reader was held at the entry of createClient when the clients were reset" % strata[idx])
-        fkind = "+".join(sorted(set(faults))) or "no-fault"
-        if res.get("heldAtReset"):
-            win = "reset-during-redirect-dial"
-        if win:
-            fkind = win + "/" + fkind
-        # The replay controls the environment only: whether a request joined the connect attempt of an earlier,
-        # still unanswered request (fail fast sharing) is up to the proxy's goroutines. An error is therefore also
-        # allowed when some request that was in flight at issue time witnessed a fault in the model.
-        may = {s["r"]: s["mayErr"] for s in beh if s["a"] == "Done"}
-        inflight, shared = set(), set()
-        for s in beh:
-            if s["a"] == "Issue":
-                if any(may.get(x) for x in inflight):
-                    shared.add(s["r"])
-                inflight.add(s["r"])
-            elif s["a"] == "Done":
-                inflight.discard(s["r"])
-        for b in res.get("bad") or []:
-            if "no reply" in b:
-                ctx.violation("no-reply/%s" % fkind, b, art)
-                continue
-            rid = int(b.split()[1])
-            if rid in shared:
-                ctx.cov["shared_attempt_errors_allowed"] = ctx.cov.get("shared_attempt_errors_allowed", 0) + 1
-                continue
-            ctx.violation("error-while-reachable/%s" % fkind, b, art)
-        if not res["healOK"]:
-            ctx.violation("no-heal/%s" % fkind,
-                          "backend reachable again but requests still fail after %d tries: %s" % (res["healTries"], res["healText"]), art)
-        elif not res["newConn"]:
-            ctx.violation("no-new-connection/%s" % fkind, "served without a new backend connection after the fault", art)
-        if res["connsAtEnd"] > 1:
-            ctx.violation("orphan-backend-connection/%s" % fkind,
-                          "%d backend connections open to one node after quiescence" % res["connsAtEnd"], art)
-        if res["stopOK"] and res["connsAfterStop"] > 0:
-            ctx.violation("backend-connection-open-after-stop/%s" % fkind,
-                          "%d backend connections still open after Stop returned" % res["connsAfterStop"], art)
-        if res.get("resetHung"):
-            ctx.notes.append("replay %d (%s): OnSvcAllHostReplace did not return within 5 s" % (res["id"], fkind))
-        if res.get("fillerSent", 0) != res.get("fillerAnswered", 0):
-            ctx.notes.append("replay %d (%s): %d of %d requests of the sessions that filled the queue were never answered (C02's subject)"
-                             % (res["id"], fkind, res["fillerSent"] - res["fillerAnswered"], res["fillerSent"]))
-        if res.get("stalls"):
-            ctx.cov["stalled_histories"] = ctx.cov.get("stalled_histories", 0) + 1
-        if not res.get("bad") and res["healOK"]:
-            ctx.cov["traces_validated_against_impl"] += 1
-    if okc < len(behs) * 0.8:
-        raise kit.Inconclusive("replay driver unhealthy: %d of %d" % (okc, len(behs)))
-    if missed:
-        raise kit.Inconclusive("mandatory strata not exercised on the code: %s" % "; ".join(missed[:4]))
+    def run_replay():
+        ctx.harness(["c07-replay", "-in", bfile, "-out", rfile, "-par", "4", "-gate", ",".join(map(str, gate)) or "0"], timeout=9000)
+
+    hpool = ThreadPoolExecutor(max_workers=3)
+    fut_replay = hpool.submit(run_replay)
+
     # several backends lose their connections at the same instant (exits and self-removals of clients overlap)
     mfile = os.path.join(ctx.work, "multi.ndjson")
-    ctx.harness(["c07-multi", "-out", mfile, "-rounds", "40" if ctx.thorough else "8", "-nodes", "16" if ctx.thorough else "8"], timeout=1200)
-    for r in kit.read_ndjson(mfile):
-        ctx.case(key=["multi", r["round"], r["fault"]], nontrivial=True)
-        if r.get("failing"):
-            ctx.violation("no-heal/simultaneous-loss/" + r["fault"],
-                          "%d of %d reachable backends keep failing after %s: %s" % (len(r["failing"]), r["nodes"], r["fault"], r["failing"][:3]), r)
-        elif r["maxConns"] > 1:
-            ctx.violation("orphan-backend-connection/simultaneous-loss", "%d backend connections open to one node" % r["maxConns"], r)
-        else:
-            ctx.cov["traces_validated_against_impl"] += 1
+    # layout changes: redirections stop within the refresh rounds Refresh.tla allows
+    vfile = os.path.join(ctx.work, "converge.ndjson")
 
+    def run_multi_converge():
+        ctx.harness(["c07-multi", "-out", mfile, "-rounds", "40" if ctx.thorough else "8", "-nodes", "16" if ctx.thorough else "8"], timeout=1200)
+        ctx.build("cluster")
+        vfile = os.path.join(ctx.work, "converge.ndjson")
+        ctx.harness(["cluster-converge", "-out", vfile, "-changes", "60" if ctx.thorough else "10"], timeout=900, name="cluster")
+
+    fut_mc = hpool.submit(run_multi_converge)
+
+    # ---------------------------------------------------------------- clients stopped / connections lost under traffic
+    titems = []
+    for k in range(3 if ctx.thorough else 1):
+        for fault in ("ResetAll", "Remove"):
+            for sd in (1, 2):
+                titems.append({"fault": fault, "rounds": 60, "nodes": 12, "sessions": 6, "seed": ctx.seed * 100 + k * 10 + sd})
+        titems.append({"fault": "ConnLost", "rounds": 30, "nodes": 12, "sessions": 6, "seed": ctx.seed * 100 + k * 10})
+    tfile = os.path.join(ctx.work, "traffic-items.ndjson")
+    kit.write_ndjson(tfile, titems)
+    trfile = os.path.join(ctx.work, "traffic.ndjson")
     # ---------------------------------------------------------------- refresh loop: histories on the real code
-    rnum = 80 if ctx.thorough else 8
-    g2 = ctx.tlc("redis", "RefreshGen", "Gen_Refresh.cfg", mode="sim", workers=1, sim_num=rnum, sim_depth=60,
-                 seed=ctx.seed, deadlock=False, timeout=300)
+    g2 = fut_g2.result()
     rsim = [p for (tag, p) in g2.prints if tag == "BEH"]
     if len(rsim) < rnum // 2:
         raise kit.Inconclusive("only %d refresh behaviours emitted: %s" % (len(rsim), g2.error[:300]))
-    st2 = ctx.tlc("redis", "RefreshGen", "Strata_Refresh.cfg", workers=1, deadlock=False, timeout=300)
+    st2 = fut_st2.result()
     if st2.timeout or (st2.error and not st2.prints):
         raise kit.Inconclusive("refresh strata emission failed: %s" % st2.error[:500])
     rbest = {}
@@ -302,7 +299,155 @@ def run(ctx):
     rbfile = os.path.join(ctx.work, "refresh-behaviours.ndjson")
     kit.write_ndjson(rbfile, rbehs)
     rrfile = os.path.join(ctx.work, "refresh.ndjson")
-    ctx.harness(["c07-refresh", "-in", rbfile, "-out", rrfile, "-par", "4"], timeout=3000)
+    def run_refresh_traffic():
+        ctx.harness(["c07-refresh", "-in", rbfile, "-out", rrfile, "-par", "4"], timeout=9000)
+        ctx.harness(["c07-traffic", "-in", tfile, "-out", trfile, "-par", "4"], timeout=1800)
+
+    fut_rt = hpool.submit(run_refresh_traffic)
+
+    fut_replay.result()
+    results = kit.read_ndjson(rfile)
+    okc = 0
+    missed = []
+    for idx, (res, beh) in enumerate(zip(results, behs)):
+        if res.get("crash"):
+            faults = "+".join(sorted(set(s["a"] for s in beh if s["a"] in FAULTS))) or "no-fault"
+            tail = "after-config-update" if any(s["a"] == "ConfigUpdate" for s in beh) else faults
+            judge_crash(ctx, res["crash"], tail, "history %d (%s)" % (res["id"], " ".join("%s%s" % (s["a"], s["r"] or "") for s in beh)),
+                        {"behaviour": beh, "crash": res["crash"], "stratum": strata.get(idx)})
+            if res["crash"].get("confirmed"):
+                okc += 1
+                ctx.case(key=[(s["a"], s["r"], bool(s.get("ask"))) for s in beh], nontrivial=True)
+                continue
+        if res.get("err"):
+            ctx.notes.append("replay %d: %s" % (res["id"], res["err"]))
+            if idx in strata:
+                missed.append("%s: %s" % (strata[idx], res["err"]))
+            continue
+        okc += 1
+        faults = [s["a"] for s in beh if s["a"] in FAULTS]
+        win = pipeline_window(beh)
+        ctx.case(key=[(s["a"], s["r"], bool(s.get("ask"))) for s in beh], nontrivial=len(faults) > 0 or bool(win) or idx in strata or bool(res.get("heldAtReset")))
+        art = {"behaviour": beh, "result": res}
+        if idx in strata:
+            art["stratum"] = strata[idx]
+            if win and not res.get("heldAtFault"):
+                missed.append("%s: the writer was not seen holding a request when the fault hit" % strata[idx])
+            if strata[idx].startswith("redirect-dial") and not res.get("heldAtReset"):
+                missed.append("%s: no reader was held at the entry of createClient when the clients were reset" % strata[idx])
+        fkind = "+".join(sorted(set(faults))) or "no-fault"
+        if res.get("heldAtReset"):
+            win = "reset-during-redirect-dial"
+        if win:
+            fkind = win + "/" + fkind
+        # The replay controls the environment only: whether a request joined the connect attempt of an earlier,
+        # still unanswered request (fail fast sharing) is up to the proxy's goroutines. An error is therefore also
+        # allowed when some request that was in flight at issue time witnessed a fault in the model.
+        may = {s["r"]: s["mayErr"] for s in beh if s["a"] == "Done"}
+        # (a path into a stratum may end with requests still on their way: such a request has witnessed the faults that
+        # followed its issue)
+        issued_at = {s["r"]: i for i, s in enumerate(beh) if s["a"] == "Issue"}
+        for r0, i0 in issued_at.items():
+            if r0 not in may:
+                may[r0] = any(s["a"] in ("ConnLost", "BackendDown", "ResetAll") for s in beh[i0:])
+        inflight, shared = set(), set()
+        for s in beh:
+            if s["a"] == "Issue":
+                if any(may.get(x) for x in inflight):
+                    shared.add(s["r"])
+                inflight.add(s["r"])
+            elif s["a"] == "Done":
+                inflight.discard(s["r"])
+        for b in res.get("bad") or []:
+            if "no reply" in b:
+                ctx.violation("no-reply/%s" % fkind, b, art)
+                continue
+            rid = int(b.split()[1])
+            if rid in shared:
+                ctx.cov["shared_attempt_errors_allowed"] = ctx.cov.get("shared_attempt_errors_allowed", 0) + 1
+                continue
+            ctx.violation("error-while-reachable/%s" % fkind, b, art)
+        if not res["healOK"]:
+            ctx.violation("no-heal/%s" % fkind,
+                          "backend reachable again but requests still fail after %d tries: %s" % (res["healTries"], res["healText"]), art)
+        elif not res["newConn"]:
+            ctx.violation("no-new-connection/%s" % fkind, "served without a new backend connection after the fault", art)
+        if res["connsAtEnd"] > 1:
+            ctx.violation("orphan-backend-connection/%s" % fkind,
+                          "%d backend connections open to one node after quiescence" % res["connsAtEnd"], art)
+        if res["stopOK"] and res["connsAfterStop"] > 0:
+            ctx.violation("backend-connection-open-after-stop/%s" % fkind,
+                          "%d backend connections still open after Stop returned" % res["connsAfterStop"], art)
+        if res.get("late"):
+            ctx.cov["late_within_extended_deadline"] = ctx.cov.get("late_within_extended_deadline", 0) + len(res["late"])
+        if res.get("cfgErr"):
+            ctx.notes.append("replay %d: OnSvcConfigUpdate returned %s" % (res["id"], res["cfgErr"]))
+        if res.get("resetHung"):
+            ctx.notes.append("replay %d (%s): OnSvcAllHostReplace did not return within 15 s" % (res["id"], fkind))
+        if res.get("fillerSent", 0) != res.get("fillerAnswered", 0):
+            ctx.notes.append("replay %d (%s): %d of %d requests of the sessions that filled the queue were never answered (C02's subject)"
+                             % (res["id"], fkind, res["fillerSent"] - res["fillerAnswered"], res["fillerSent"]))
+        if res.get("stalls"):
+            ctx.cov["stalled_histories"] = ctx.cov.get("stalled_histories", 0) + 1
+        if not res.get("bad") and res["healOK"]:
+            ctx.cov["traces_validated_against_impl"] += 1
+    if okc < len(behs) * 0.8:
+        raise kit.Inconclusive("replay driver unhealthy: %d of %d" % (okc, len(behs)))
+    if missed:
+        raise kit.Inconclusive("mandatory strata not exercised on the code: %s" % "; ".join(missed[:4]))
+    fut_mc.result()
+    for r in kit.read_ndjson(mfile):
+        ctx.case(key=["multi", r["round"], r["fault"]], nontrivial=True)
+        if r.get("failing"):
+            ctx.violation("no-heal/simultaneous-loss/" + r["fault"],
+                          "%d of %d reachable backends keep failing after %s: %s" % (len(r["failing"]), r["nodes"], r["fault"], r["failing"][:3]), r)
+        elif r["maxConns"] > 1:
+            ctx.violation("orphan-backend-connection/simultaneous-loss", "%d backend connections open to one node" % r["maxConns"], r)
+        else:
+            ctx.cov["traces_validated_against_impl"] += 1
+
+    fut_rt.result()
+    tmissed = []
+    for it, r in zip(titems, kit.read_ndjson(trfile)):
+        what = "%s x%d under the traffic of %d sessions to %d backends" % (it["fault"], it["rounds"], it["sessions"], it["nodes"])
+        ctx.case(key=["traffic", it["fault"], it["seed"]], nontrivial=True)
+        if r.get("crash"):
+            judge_crash(ctx, r["crash"], "%s-under-traffic" % it["fault"], what, {"item": it, "result": r})
+            if r["crash"].get("confirmed"):
+                continue
+        if r.get("err"):
+            ctx.notes.append("traffic %s: %s" % (it["fault"], r["err"]))
+            tmissed.append("%s: %s" % (it["fault"], r["err"][:200]))
+            continue
+        bad = False
+        if r.get("late"):
+            ctx.cov["late_within_extended_deadline"] = ctx.cov.get("late_within_extended_deadline", 0) + len(r["late"])
+        if r["noReply"] and not r.get("failing"):
+            # unanswered requests of a proxy that heals are C02's subject (and, on a loaded machine, a matter of the 4 s)
+            ctx.notes.append("traffic %s: %d of %d requests were not answered within 4 s (%s), the backends were served again afterwards"
+                             % (it["fault"], r["noReply"], r["sent"], r.get("firstNo", "")))
+        if r.get("failing"):
+            bad = True
+            ctx.violation("no-heal/traffic/%s" % it["fault"], "the faults are over and every backend is reachable, but %d of %d keep failing (not answered within 3 s and, on a new connection, 6 s): %s%s%s"
+                          % (len(r["failing"]), it["nodes"], r["failing"][:3], "; %s has not returned for 10 s" % r["hung"] if r.get("hung") else "",
+                             "; %d requests of the sessions unanswered" % r["noReply"] if r["noReply"] else ""), {"item": it, "result": r})
+        elif not r["newConns"]:
+            bad = True
+            ctx.violation("no-new-connection/traffic/%s" % it["fault"], "served without a new backend connection after the last fault", {"item": it, "result": r})
+        if r["maxConns"] > 1:
+            bad = True
+            ctx.violation("orphan-backend-connection/traffic/%s" % it["fault"], "%d backend connections open to one node after quiescence" % r["maxConns"], {"item": it, "result": r})
+        if r.get("hung") and not bad:
+            ctx.notes.append("traffic %s: %s did not return within 10 s" % (it["fault"], r["hung"]))
+        if not bad:
+            if r["rounds"] < it["rounds"]:
+                tmissed.append("%s: only %d of %d rounds" % (it["fault"], r["rounds"], it["rounds"]))
+            else:
+                ctx.cov["traces_validated_against_impl"] += 1
+                ctx.cov["traffic_requests"] = ctx.cov.get("traffic_requests", 0) + r["sent"]
+    if tmissed and not ctx.violations:
+        raise kit.Inconclusive("traffic scenarios not exercised: %s" % "; ".join(tmissed[:3]))
+
     rres = kit.read_ndjson(rrfile)
     rok, rmissed = 0, []
     for res, b in zip(rres, rbehs):
@@ -350,10 +495,6 @@ def run(ctx):
     if rmissed:
         raise kit.Inconclusive("mandatory refresh strata not exercised on the code: %s" % "; ".join(rmissed[:4]))
 
-    # layout changes: redirections stop within the refresh rounds Refresh.tla allows
-    ctx.build("cluster")
-    vfile = os.path.join(ctx.work, "converge.ndjson")
-    ctx.harness(["cluster-converge", "-out", vfile, "-changes", "60" if ctx.thorough else "10"], timeout=900, name="cluster")
     for r in kit.read_ndjson(vfile):
         ctx.case(key=["converge", r["change"], r["rounds"], r["redirects"]], nontrivial=True)
         if r.get("err"):
@@ -364,6 +505,7 @@ def run(ctx):
             ctx.violation("too-many-refresh-rounds/layout-change", "%d successful refresh rounds until redirections stopped (model: at most 2)" % r["rounds"], r)
         else:
             ctx.cov["traces_validated_against_impl"] += 1
+    hpool.shutdown()
     # the exhaustive runs must have ended clean (Inconclusive otherwise)
     fut_small.result()
     fut_big.result()
